@@ -95,20 +95,26 @@ def F_(name: str):
 
 
 def op(name: str, *args) -> sp.Basic:
-    targs = [to_term(a) for a in args]
-    if name == "item" and len(targs) == 2 and isinstance(targs[1], sp.Tuple) and len(targs[1].args) >= 2 \
-            and not any(str(a) == "None" for a in targs[1].args):
-        # x[k, :] is x[k]: trailing whole-axis slices select everything (one spelling for both)
-        ix = list(targs[1].args)
-        while len(ix) > 1 and _is_full_slice(ix[-1]):
-            ix.pop()
-        if len(ix) != len(targs[1].args):
-            targs[1] = ix[0] if len(ix) == 1 else sp.Tuple(*ix)
-    return F_(name)(*targs)
+    return F_(name)(*[to_term(a) for a in args])
 
 
 def _is_full_slice(t) -> bool:
     return fname(t) == "slc" and len(t.args) == 3 and all(str(a) == "None" for a in t.args)
+
+
+def strip_trailing_slices(t):
+    """x[k, :] is x[k]: trailing whole-axis slices select everything.  A comparison-time normal form (both sides), not a
+    construction-time one: readers of row expressions need to see which axes an operand spans."""
+    def fn(n):
+        if fname(n) == "item" and len(n.args) == 2 and isinstance(n.args[1], sp.Tuple) and len(n.args[1].args) >= 2 \
+                and not any(str(a) == "None" for a in n.args[1].args):
+            ix = list(n.args[1].args)
+            while len(ix) > 1 and _is_full_slice(ix[-1]):
+                ix.pop()
+            if len(ix) != len(n.args[1].args):
+                return F_("item")(n.args[0], ix[0] if len(ix) == 1 else sp.Tuple(*ix))
+        return None
+    return rewrite(t, fn)
 
 
 def to_term(v) -> sp.Basic:
